@@ -83,11 +83,28 @@ Inductive fmt := Fxyz | Fobj | Foff | Ftet | Fmedit | Fgeo.
 (* x == 0.0 on bit patterns (both zeros), z == 0j *)
 Definition bits_is_zero (b : Z) : bool := (b =? 0) || (b =? 2 ^ 63).
 Definition cbits_is_zero (c : Z * Z) : bool := bits_is_zero (fst c) && bits_is_zero (snd c).
-Definition zsave_geo (m : zmesh) : option (list ztok) := @save_geo Z Z (Z * Z) (Z * Z) idZ idC m.
-Definition zprint_geo (m : zmesh) : list ztok := @print_geo Z Z (Z * Z) (Z * Z) idZ idC m.
+Definition zenc_s : string -> string := pct_encode geo_string_safe.
+Definition zenc_n : string -> string := pct_encode geo_name_safe.
+Definition zsave_geo (m : zmesh) : option (list ztok) := @save_geo Z Z (Z * Z) (Z * Z) idZ idC zenc_s zenc_n m.
+Definition zprint_geo (m : zmesh) : list ztok := @print_geo Z Z (Z * Z) (Z * Z) idZ idC zenc_s zenc_n m.
 Definition zparse_geo (l : list ztok) : option zraw :=
-  @parse_geo Z Z (Z * Z) (Z * Z) idZ bits_of_int idC cx_of_bits bits_is_zero cbits_is_zero l.
+  @parse_geo Z Z (Z * Z) (Z * Z) idZ bits_of_int idC cx_of_bits bits_is_zero cbits_is_zero pct_decode pct_decode l.
 Definition zvocab_geo (m : zmesh) : zraw := @vocab_geo Z (Z * Z) bits_is_zero cbits_is_zero m.
+
+(* io.py: the extension of the file selects the export / import function *)
+Definition fmt_ext (f : fmt) : string :=
+  match f with Fxyz => "xyz" | Fobj => "obj" | Foff => "off" | Ftet => "tet" | Fmedit => "mesh" | Fgeo => "geogram_ascii" end.
+Definition fmt_codec (f : fmt) : string * string :=
+  match f with
+  | Fxyz => ("export_xyz", "import_xyz") | Fobj => ("export_obj", "import_obj") | Foff => ("export_off", "import_off")
+  | Ftet => ("export_tet", "import_tet") | Fmedit => ("export_medit", "import_medit")
+  | Fgeo => ("export_geogram_ascii", "import_geogram_ascii")
+  end%string.
+Definition table_get (k : string) (t : list (string * string)) : option string :=
+  match find (fun e => String.eqb k (fst e)) t with Some (_, v) => Some v | None => None end.
+Definition dispatch_ok (f : fmt) : bool :=
+  ostr_eqb (table_get (fmt_ext f) io_export_table) (Some (fst (fmt_codec f)))
+  && ostr_eqb (table_get (fmt_ext f) io_import_table) (Some (snd (fmt_codec f))).
 
 Definition print_fmt (f : fmt) (sw : switches) (m0 : zmesh) : option (list zline) :=
   let m := apply_ignore sw m0 in
@@ -124,6 +141,7 @@ Definition vocab_fmt (f : fmt) (sw : switches) (m0 : zmesh) : option zraw :=
 (* save: the file mouette wrote (tokenised), or None when save raised *)
 Definition check_save (c : fmt * switches * zmesh * option (list zline)) : bool :=
   let '(f, sw, m, obs) := c in
+  dispatch_ok f &&
   match print_fmt f sw m, obs with
   | Some a, Some b => lines_agree a b
   | None, None => true
@@ -135,7 +153,7 @@ Definition check_save (c : fmt * switches * zmesh * option (list zline)) : bool 
 Definition check_load (c : fmt * list zline * option zraw * option (option string)) : bool :=
   let '(f, ls, obs, cls) := c in
   let r := parse_fmt f ls in
-  oraw_eqb r obs &&
+  dispatch_ok f && oraw_eqb r obs &&
   match cls, r with
   | Some k, Some x => ostr_eqb (class_of_loaded x) k
   | _, _ => true
